@@ -5,6 +5,7 @@ import (
 	"go/token"
 	"go/types"
 	"math/big"
+	"strconv"
 	"strings"
 
 	"golang.org/x/tools/go/ssa"
@@ -172,6 +173,7 @@ func (r *FnRun) execInstr(st *State, in ssa.Instruction, b *ssa.BasicBlock) bool
 		p := r.allocObj(st, "mk")
 		st.assume(sEq(sx("alen", p), c.S))
 		et := x.Type().Underlying().(*types.Slice).Elem()
+		st.assume(sEq(sx("elty", p), fmt.Sprint(r.W.eltyFor(et))))
 		if kindOf(et) == KInt {
 			r.setHeap(st, "A", sx("store", st.heap["A"], p, "((as const (Array Int Int)) 0)"))
 		}
@@ -874,6 +876,7 @@ func (r *FnRun) execConvert(st *State, x *ssa.Convert) {
 		st.assume(sEq(sx("seqOf", arr, "0", n), v.S))
 		r.setHeap(st, "A", sx("store", st.heap["A"], p, arr))
 		st.assume(sEq(sx("alen", p), n))
+		st.assume(sEq(sx("elty", p), fmt.Sprint(r.W.eltyFor(types.Typ[types.Byte]))))
 		st.vals[x] = Val{K: KSlice, T: to, Bas: p, Off: "0", Len: n, Cap: n}
 	case fk == KSeq && tk == KSeq:
 		st.vals[x] = v
@@ -959,7 +962,16 @@ func (r *FnRun) assertAtName(st *State, site ssa.Instruction, name string, args 
 		return
 	}
 	for _, aa := range r.C.AssertAt {
-		if !strings.Contains(name, aa.Callee) {
+		pat, want := aa.Callee, 0
+		if i := strings.LastIndex(pat, "#"); i > 0 {
+			if k, err := strconv.Atoi(pat[i+1:]); err == nil {
+				pat, want = pat[:i], k
+			}
+		}
+		if !strings.Contains(name, pat) {
+			continue
+		}
+		if want > 0 && r.matchOrdinal(site, pat) != want {
 			continue
 		}
 		env := &Env{r: r, st: st, old: r.entry, vars: map[string]Val{}, fn: r.Fn, pkg: r.entryEnv.pkg}
@@ -986,4 +998,33 @@ func (r *FnRun) assertAtName(st *State, site ssa.Instruction, name string, args 
 		o.Clause = aa.Clause.Src
 		st.assume(g.S)
 	}
+}
+
+// matchOrdinal: position of site among the call sites of the function whose
+// callee name contains pat (SSA block order).
+func (r *FnRun) matchOrdinal(site ssa.Instruction, pat string) int {
+	n := 0
+	for _, b := range r.Fn.Blocks {
+		for _, in := range b.Instrs {
+			name := ""
+			switch x := in.(type) {
+			case *ssa.Select:
+				name = "select"
+			case ssa.CallInstruction:
+				call := x.Common()
+				if call.IsInvoke() {
+					name = "(" + types.TypeString(call.Value.Type(), nil) + ")." + call.Method.Name()
+				} else if f := call.StaticCallee(); f != nil {
+					name = f.String()
+				}
+			}
+			if name != "" && strings.Contains(name, pat) {
+				n++
+				if in == site {
+					return n
+				}
+			}
+		}
+	}
+	return 0
 }
